@@ -42,6 +42,7 @@ def run(chk, repo, tier):
     oka = okb_amp = okb_opd = okc_order = okc_bin = okc_int = okd = True
     n_ps = n_amp = n_opd = n_mask = 0
     copy_ok = True
+    opd_masked = False
     bin_unknown = []
     for p in rets:
         cp = p.calls('plane.Plane.copy')
@@ -89,6 +90,10 @@ def run(chk, repo, tier):
             a = v.single_atom() if isinstance(v, Poly) else None
             good = a is not None and is_app(a, 'call:util.rescale') and bound_of(a).get('scale') == scale and \
                 bound_of(a).get('unitary') == FALSE
+            # (no mask: util.rescale interpolates a supplied mask and multiplies by it - a taper on the outermost samples)
+            if good and bound_of(a).get('mask') not in (None, NONE):
+                good = False
+                opd_masked = True
             okb_opd = okb_opd and good
         if '_mask' in last:
             n_mask += 1
@@ -137,7 +142,8 @@ def run(chk, repo, tier):
             '(e.g. 1/240 with s = 1.5), so the rescaled plane no longer equals one built at pixelscale/s') if recip
            else f'{n_div} division(s), none forms the reciprocal of the scale factor', f.loc())
     chk.ob('C17-b', 'D-factor', f.key, 'amplitude = rescale(amplitude, scale)/scale', okb_amp and n_amp > 0, '', f.loc())
-    chk.ob('C17-b', 'D-factor', f.key, 'OPD = rescale(opd, scale) without extra factor', okb_opd and n_opd > 0, '', f.loc())
+    chk.ob('C17-b', 'D-factor', f.key, 'OPD = rescale(opd, scale) without extra factor', okb_opd and n_opd > 0,
+           'the OPD is interpolated with a mask: the result is multiplied by the (linearly interpolated) mask' if opd_masked else '', f.loc())
     chk.ob('C17-c', 'N-sibling', f.key, 'mask rescaled with order 0 in the monolithic and the segmented branch',
            okc_order and n_mask >= 2, f'{n_mask} mask branch(es)', f.loc())
     mask_rescale_siblings(chk, repo, 'C17-c', rets)
